@@ -18,8 +18,9 @@ TECHNIQUE = (
 )
 RULE = (
     "one session = one real bash process that sources exit-handling / ebuild-daemon-lib / isolated-functions / eapi "
-    "depend+common (the set pkgcore-ipc-helper sources) and issues, in a subshell each, the request under test and then "
-    "a sentinel 'dodir /sentinel' through the real __ebd_ipc_cmd (has_version/best_version through their real "
+    "depend+common (the set pkgcore-ipc-helper sources) and issues, in a subshell each, the request under test, then (for "
+    "the install/dir/link helpers, which keep installer state per instance) a plain valid follow-up request to the same "
+    "helper, then a sentinel 'dodir /sentinel' through the real __ebd_ipc_cmd (has_version/best_version through their real "
     "eapi/0/phase.bash wrappers; 'script' sessions run the real helpers/common/pkgcore-ipc-helper with the real helper "
     "script instead), ending with 'phases succeeded'. The Python peer is a real EbuildProcessor object bound to the "
     "harness pipes whose real generic_handler dispatches to the 24 real ebd_ipc helper instances (fake op: FakePkg EAPI 8, "
@@ -41,11 +42,13 @@ ASSUMPTIONS = [
     "filesystem placement details beyond 'the requested entry exists at the destination the request named' belong to C33",
 ]
 BOUNDS = {
-    "quick": "24 helpers, 12 script-mode helper runs; 386 fault-free sessions (= 772 requests incl. sentinels) + one EIO on every helper filesystem event of each of them",
-    "thorough": "same sessions + EACCES on every event + every pair of EIO faults",
+    "quick": "24 helpers (+6 of them again through the real pkgcore-ipc-helper + helper script): 484 fault-free sessions "
+    "(request under test, valid follow-up to the same helper where it keeps installer state, sentinel) + one EIO on every "
+    "helper filesystem event of the request under test of each of them (1982 fault points); ~4.9 k requests answered",
+    "thorough": "same sessions + EACCES on every event + every pair k1<k2 of EIO faults",
 }
 
-TIMEOUT = 180
+TIMEOUT = 600
 FILE_DATA = b"payload-f\n"
 
 # ------------------------------------------------------------------ request alphabet
@@ -366,6 +369,66 @@ def _alarm(signum, frame):
     raise _Timeout()
 
 
+def _group_state(pgid):
+    """(states, cpu ticks) of all processes in process group pgid"""
+    states, total = [], 0
+    for d in os.listdir("/proc"):
+        if not d.isdigit():
+            continue
+        try:
+            with open(f"/proc/{d}/stat") as f:
+                data = f.read()
+        except OSError:
+            continue
+        fields = data[data.rfind(")") + 2 :].split()
+        if int(fields[2]) == pgid:
+            states.append(fields[0])
+            total += int(fields[11]) + int(fields[12])
+    return states, total
+
+
+class Watchdog:
+    """SIGALRM ticker that tells a stuck channel from a starved machine: it fires when every process of the peer's
+    process group has been sleeping without consuming any CPU for IDLE seconds while we wait for it (a runnable but
+    starved process is in state R, not S), or when the absolute cap is reached."""
+
+    TICK, IDLE = 5, 30
+
+    def __init__(self, pgid_fn, cap):
+        self.pgid_fn, self.cap = pgid_fn, cap
+        self.elapsed = self.idle = 0
+        self.last = None
+        self.reason = None
+
+    def __enter__(self):
+        self.old = signal.signal(signal.SIGALRM, self.tick)
+        signal.setitimer(signal.ITIMER_REAL, self.TICK, self.TICK)
+        return self
+
+    def __exit__(self, *exc):
+        signal.setitimer(signal.ITIMER_REAL, 0)
+        signal.signal(signal.SIGALRM, self.old)
+        return False
+
+    def tick(self, signum, frame):
+        self.elapsed += self.TICK
+        if self.elapsed >= self.cap:
+            self.reason = f"no answer within {self.cap}s"
+            raise _Timeout()
+        pgid = self.pgid_fn()
+        if not pgid:
+            return
+        states, total = _group_state(pgid)
+        if states and all(s in "SZ" for s in states) and total == self.last:
+            self.idle += self.TICK
+        else:
+            self.idle = 0
+        self.last = total
+        if self.idle >= self.IDLE:
+            self.reason = f"peer idle for {self.idle}s: every process of the peer sleeps, nobody is going to write"
+            raise _Timeout()
+
+
 class Observer:
     def __init__(self):
         self.calls = []
@@ -510,7 +573,7 @@ def run_session(world, spec, timeout=None):
                 f.write(field.encode() + b"\0")
     env["VERIF_SPEC"] = spec_path
     argv = ["bash", world.driver, "true" if spec["nonfatal"] else "false", "install"]
-    proc = subprocess.Popen(argv, env=env, pass_fds=(rp_r, rq_w), stdin=subprocess.DEVNULL, stdout=subprocess.DEVNULL, stderr=subprocess.DEVNULL)
+    proc = subprocess.Popen(argv, env=env, pass_fds=(rp_r, rq_w), stdin=subprocess.DEVNULL, stdout=subprocess.DEVNULL, stderr=subprocess.DEVNULL, start_new_session=True)
     os.close(rp_r)
     os.close(rq_w)
 
@@ -570,17 +633,14 @@ def run_session(world, spec, timeout=None):
     if spec.get("fault"):
         ks, en = spec["fault"]
         plan = ("errors", set(ks), en) if len(ks) > 1 else ("error", ks[0], en)
-    old = signal.signal(signal.SIGALRM, _alarm)
-    signal.setitimer(signal.ITIMER_REAL, timeout or TIMEOUT, 5)
+    dog = Watchdog(lambda: proc.pid, timeout or TIMEOUT)
     try:
-        try:
+        with dog:
             status, value = inj.run(serve, plan)
             obs["outcome"] = value if status == "ok" else f"harness:{status}:{value!r}"[:200]
-        finally:
-            signal.setitimer(signal.ITIMER_REAL, 0)
-            signal.signal(signal.SIGALRM, old)
     except _Timeout:
         obs["outcome"] = "timeout"
+        obs["timeout_reason"] = dog.reason
     obs["events"] = list(inj.events)
     obs["errored_at"] = inj.errored_at
     for f in (ebp.ebd_write, ebp.ebd_read):
@@ -592,7 +652,10 @@ def run_session(world, spec, timeout=None):
         # both pipe ends are closed now, so the bash side runs into EOF/EPIPE and leaves by itself
         proc.wait(timeout=(timeout or TIMEOUT) if obs["outcome"] != "timeout" else 1)
     except subprocess.TimeoutExpired:
-        proc.kill()
+        try:
+            os.killpg(proc.pid, signal.SIGKILL)
+        except OSError:
+            pass
         proc.wait()
         obs["bash_killed"] = True
     obs["status_lines"] = _read(world.status).decode("utf-8", "replace").splitlines()
@@ -688,7 +751,7 @@ def judge(spec, obs):
     ndisp = len(obs["dispatched"])
 
     if outcome == "timeout" or (isinstance(outcome, str) and outcome.startswith(("harness:", "protocol-error"))):
-        v.append(("channel", f"session did not complete: {outcome}; status file {lines}"))
+        v.append(("channel", f"session did not complete: {outcome} {obs.get('timeout_reason', '')}; status file {lines}"))
         return v, "broken-session"
     if req_st is None:
         v.append(("channel", f"request never returned on the bash side; python outcome {outcome}"))
@@ -794,9 +857,12 @@ def judge(spec, obs):
 
 def check(world, spec):
     obs = run_session(world, spec)
-    if obs["outcome"] == "timeout" or obs.get("bash_killed"):
-        # a starved machine can exceed the time limit: only a hang that shows again with four times the allowance counts
-        obs = run_session(world, spec, timeout=4 * TIMEOUT)
+    if (obs["outcome"] == "timeout" and str(obs.get("timeout_reason", "")).startswith("no answer within")) or (
+        obs["outcome"] != "timeout" and obs.get("bash_killed")
+    ):
+        # the absolute cap was hit while the bash side was still busy (a starved machine): only a hang that shows again
+        # counts. (The usual stuck channel is recognised much earlier: every process of the bash side idle.)
+        obs = run_session(world, spec)
     obs["world_image"] = world.image
     viol, cls = judge(spec, obs)
     return obs, viol, cls
